@@ -8,6 +8,8 @@ ENGINE = "q"
 VARIANT = "std"
 STATEFUL = True
 LEVEL = "proof"
+# whole sessions on engine `conn`: the reported queue length across disconnect / reconnect of one object
+ALSO = [("c06conn", 300)]
 FILES = ["conn.c", "event.c"]
 TRUSTED = ["model Strophe/Model/SendQueue.lean tied to conn.c (send/drop/len) and the write loop of "
            "xmpp_run_once (event.c) by differential execution (engine q): after EVERY op the complete "
